@@ -467,6 +467,14 @@ validate_body_helper (DBusTypeReader       *reader,
                  */ 
                 if (dbus_type_is_fixed (array_elem_type))
                   {
+                    /* Fixed-size types all have sizes equal to their
+                     * alignments, so this is the item size: the array must
+                     * contain a whole number of items. */
+                    alignment = _dbus_type_get_alignment (array_elem_type);
+
+                    if ((claimed_len % alignment) != 0)
+                      return DBUS_INVALID_ARRAY_LENGTH_INCORRECT;
+
                     /* bools need to be handled differently, because they can
                      * have an invalid value
                      */
